@@ -103,7 +103,9 @@ func (e *End) Inject(code uint64, size uint32, payload []byte) error {
 }
 
 // Send delivers a raw payload with a truthful Size field.
-func (e *End) Send(code uint64, payload []byte) error { return e.Inject(code, uint32(len(payload)), payload) }
+func (e *End) Send(code uint64, payload []byte) error {
+	return e.Inject(code, uint32(len(payload)), payload)
+}
 
 // Envelope is the rpc framing of p2psrv/rpc: [callID, isResult, payload].
 type Envelope struct {
